@@ -157,10 +157,11 @@ CHECKS["C13"] = dict(
 CHECKS["C14"] = dict(
     level="exploration",
     technique="model-based runtime monitoring: every add-checkpoint response of the real witness is compared with a sequential reference model; every lock-store commit is checked online against ground-truth chains (one append-only history); concurrent races with injected lock/storage faults and restarts; race detector",
-    text="A real witness (logs installed through PullLogList) is driven over logs with two forks whose leaves the harness holds. Sequential histories vary old/new sizes around the recorded size, proofs (correct, empty, flipped, truncated, extended, proof of the fork), signatures (valid, corrupted, unknown key, other origin) and malformed bodies, with restarts: the status must be one of the statuses of the faults present (200 only when there is none), 409 bodies carry the recorded size, 200 bodies are exactly the two witness cosignatures verifying over the re-encoded (origin, size, root), and the lock store already holds that checkpoint. Concurrently, 8-24 goroutines race main-chain and fork updates from the same recorded size under injected lock Replace and upload failures (applied or not) and restarts: at most one 200 per recorded size and no 200 for a checkpoint that was never recorded. A monitor on every lock commit requires the log's signature, non-decreasing sizes and that all recorded checkpoints lie on one ground-truth chain. Signatures are also made with the keys of OTHER logs the witness knows (three logs installed), and two overlapping witness processes on one lock store are driven so that the stale one is asked for a fork, an older size, the same or a larger size: the recorded history must stay one chain of non-decreasing size and every 200 must name a recorded checkpoint.",
+    text="A real witness (logs installed through PullLogList) is driven over logs with two forks whose leaves the harness holds. Sequential histories vary old/new sizes around the recorded size, proofs (correct, empty, flipped, truncated, extended, proof of the fork), signatures (valid, corrupted, unknown key, other origin) and malformed bodies, with restarts: the status must be one of the statuses of the faults present (200 only when there is none), 409 bodies carry the recorded size, 200 bodies are exactly the two witness cosignatures verifying over the re-encoded (origin, size, root), and the lock store already holds that checkpoint. Concurrently, 8-24 goroutines race main-chain and fork updates from the same recorded size under injected lock Replace and upload failures (applied or not) and restarts: at most one 200 per recorded size and no 200 for a checkpoint that was never recorded. A monitor on every lock commit requires the log's signature, non-decreasing sizes and that all recorded checkpoints lie on one ground-truth chain. Signatures are also made with the keys of OTHER logs the witness knows (three logs installed), and two overlapping witness processes on one lock store are driven so that the stale one is asked for a fork, an older size, the same or a larger size: the recorded history must stay one chain of non-decreasing size and every 200 must name a recorded checkpoint. System level: the built cmd/sunlight binary configured as a witness (SQLite lock database, LocalBackend) under 6 HTTP clients racing main-chain and fork updates is killed with SIGKILL (timer, or strace signal injection on the N-th write/fsync/fcntl/... of a thread) and restarted: every released cosignature verifies over the re-encoded checkpoint, all cosigned checkpoints of the whole history lie on one chain, and after each restart the lock database records at least the largest size a cosignature was released for.",
     note="Proof generation uses x/mod tlog (generator side only); the oracle is the reference RFC 6962 tree over the known leaves. Multi-fault requests are judged by membership in the set of allowed statuses, not by a precedence order.",
     design_ref="DESIGN.md section 3, C14",
-    parts=[P("sequential", "^TestC14Sequential$", shards=(4, 16)), P("concurrent", "^TestC14Concurrent$", shards=(4, 16)), P("concurrent-race", "^TestC14Concurrent$", race=True, shards=(2, 8))],
+    parts=[P("sequential", "^TestC14Sequential$", shards=(4, 16)), P("concurrent", "^TestC14Concurrent$", shards=(4, 16)), P("concurrent-race", "^TestC14Concurrent$", race=True, shards=(2, 8)),
+           P("syswitness", "^TestSysWitnessCrash$", shards=(2, 6), bins=("sunlight",), env={"VERIF_SYS_PROPERTY": "C14"})],
     floor=500,
 )
 
